@@ -226,6 +226,8 @@ def confirm_replay(pid, path) -> bool:
         text=True,
         timeout=600,
     )
+    if r.returncode not in (0, 1):
+        raise RuntimeError(f"replay exited {r.returncode}: {(r.stdout + r.stderr)[-800:]}")
     return r.returncode == 1 and "REPRODUCED" in r.stdout
 
 
